@@ -18,7 +18,7 @@ use std::io::Write;
 pub const META_C16: Meta = Meta {
     id: "C16",
     level: "exploration",
-    rule: "Exhaustive: every list of 1-3 elements (thorough: 1-4) over codings {gzip, identity, *, br, deflate, x-gzip} x weights {none, 0, 0., 0.0, 0.000, 0.001, 0.5, 0.999, 1, 1., 1.000}, rendered with a rotating set of optional-whitespace patterns around ',' and ';'; absent and empty header; proptest for longer lists and random whitespace; arbitrary HeaderValue bytes for the no-panic clause. Oracle: independent evaluator in thousandths (gzip's quality else *'s else unacceptable; identity's else *'s else least-preferred acceptable; gzip > 0 and gzip >= identity); a coding listed twice admits the answers of either occurrence. Non-trivial = at least two of {gzip, identity, *} occur, at least one with a weight; distinct by header value.",
+    rule: "Exhaustive: every list of 1-3 elements over codings {gzip, identity, *, br, deflate, x-gzip} (thorough: also every list of 4 elements over {gzip, identity, *, br}) x weights {none, 0, 0., 0.0, 0.000, 0.001, 0.009, 0.01, 0.05, 0.1, 0.5, 0.999, 1, 1., 1.000} (one-, two- and three-decimal spellings whose order a scaling error would change), rendered with a rotating set of optional-whitespace patterns around ',' and ';'; absent and empty header; proptest for longer lists and random whitespace; arbitrary HeaderValue bytes for the no-panic clause. Oracle: independent evaluator in thousandths (gzip's quality else *'s else unacceptable; identity's else *'s else least-preferred acceptable; gzip > 0 and gzip >= identity); a coding listed twice admits the answers of either occurrence. Non-trivial = at least two of {gzip, identity, *} occur, at least one with a weight; distinct by header value.",
     assumptions: &["codings and 'q' are lower case, as in the statement's domain", "a coding listed more than once: any answer consistent with one choice of occurrence is accepted"],
 };
 
@@ -30,7 +30,23 @@ pub const META_C17: Meta = Meta {
 };
 
 pub const CODINGS: &[&str] = &["gzip", "identity", "*", "br", "deflate", "x-gzip"];
-pub const WEIGHTS: &[Option<&str>] = &[None, Some("0"), Some("0."), Some("0.0"), Some("0.000"), Some("0.001"), Some("0.5"), Some("0.999"), Some("1"), Some("1."), Some("1.000")];
+pub const WEIGHTS: &[Option<&str>] = &[
+    None,
+    Some("0"),
+    Some("0."),
+    Some("0.0"),
+    Some("0.000"),
+    Some("0.001"),
+    Some("0.009"),
+    Some("0.01"),
+    Some("0.05"),
+    Some("0.1"),
+    Some("0.5"),
+    Some("0.999"),
+    Some("1"),
+    Some("1."),
+    Some("1.000"),
+];
 
 /// (before ';', after ';', before ',', after ',')
 pub const OWS_PATTERNS: &[(&str, &str, &str, &str)] = &[("", "", "", ""), ("", "", "", " "), (" ", " ", " ", " "), ("", " ", "", "\t"), ("\t", "", " ", ""), ("", "", "  ", "  ")];
@@ -215,7 +231,7 @@ pub fn ae_strategy() -> BoxedStrategy<Option<Bs>> {
 
 pub fn run_c16(cx: &Cx) -> Acc {
     let mut acc = Acc::new();
-    let max_len = cx.tier.pick(3usize, 4usize);
+    let max_len = 3usize;
     let n_el = CODINGS.len() * WEIGHTS.len();
     // unit = first element; the rest is enumerated inside.
     let units: Vec<usize> = (0..n_el).collect();
@@ -237,6 +253,21 @@ pub fn run_c16(cx: &Cx) -> Acc {
         }
         rec(cx, &mut list, max_len, n_el, &mut counter, acc);
     }));
+    if cx.tier == Tier::Thorough {
+        // 4-element lists over the codings that matter (+ one that does not).
+        let sub = 4 * WEIGHTS.len();
+        let units4: Vec<usize> = (0..sub * sub).collect();
+        acc.merge(par_units(cx, "exhaustive-4-lists", &units4, true, "every list of 4 elements over {gzip, identity, *, br} x 15 weights", |cx, &ab, acc| {
+            let el = |i: usize| (i / WEIGHTS.len(), i % WEIGHTS.len());
+            let (a, b) = (ab / sub, ab % sub);
+            for c in 0..sub {
+                for d in 0..sub {
+                    let v = Some(Bs::s(&render(&[el(a), el(b), el(c), el(d)], a + b + c + d)));
+                    acc.run_case(cx, "exhaustive-4-lists", &v, |acc| check_c16(&v, acc));
+                }
+            }
+        }));
+    }
     let fixed: Vec<Option<Bs>> = vec![None, Some(Bs::s("")), Some(Bs::s(" ")), Some(Bs::s("\t"))];
     acc.merge(par_units(cx, "absent-empty", &fixed, true, "absent, empty and blank header", |cx, v, acc| {
         acc.run_case(cx, "absent-empty", v, |acc| check_c16(v, acc));
